@@ -21,3 +21,8 @@ func VerifMatchTypeUnmarshal(s string) error {
 	var mt matchType
 	return mt.UnmarshalText([]byte(s))
 }
+
+func VerifResourceTypeAtPath(prefix, reqPath string) int {
+	b := backend{Prefix: prefix}
+	return int(b.resourceTypeAtPath(reqPath))
+}
